@@ -88,7 +88,7 @@ impl H {
             setup: c.setup.clone(),
             counterparty_keys: c.counterparty_keys.clone(),
         });
-        H { ctx: Ctx { fx, id: self.ctx.id.clone(), cc, nmax: self.ctx.nmax, sigs }, handlers }
+        H { ctx: Ctx { fx, id: self.ctx.id.clone(), cc, nmax: self.ctx.nmax, sigs, raw: self.ctx.raw.clone() }, handlers }
     }
 
     fn message(&self, r: &Value) -> Option<(u32, Message)> {
